@@ -244,6 +244,8 @@ class World:
     def wrap_global(self, v, name=None):
         if isinstance(v, (bool, int, str, type(None), enum.Enum)):
             return v
+        if isinstance(v, (UFn, SpecFn, RecordCtor, RealFn, Builtin)):
+            return v
         if isinstance(v, (tuple,)):
             return tuple(self.wrap_global(x) for x in v)
         if isinstance(v, pytypes.ModuleType):
